@@ -353,16 +353,25 @@ func run(p *kernel.Plan) (res *kernel.Result) {
 	s.ExtraTasks = nil
 	// preemption points inserted into the scratch copy of package rtmp
 	installHook(func(point string) {
-		if t := s.S.Cur(); t != nil {
+		// no preemption while the task holds a mutex of the library: a task
+		// parked there would block the others on a real lock
+		if t := s.S.Cur(); t != nil && t.LockDepth <= 0 {
 			t.Yield(point)
+		}
+	})
+	installLock(func(delta int) {
+		if t := s.S.Cur(); t != nil {
+			t.LockDepth += delta
 		}
 	})
 	s.Run2(func(e *rtmpx.End) bool { return e == s.A })
 	installHook(nil)
+	installLock(nil)
 	s.ApplyStats(res)
 	if raceEngine {
 		res.Nontrivial = len(p.Ops) > 0
 		res.Stat("race_engine_runs", 1)
+		res.Stat("releases_left_blocked_on_a_real_lock", int64(s.S.RealBlocked))
 		res.Stat("requests", int64(len(reqs)))
 		res.Stat("responses_decoded", int64(len(decs)))
 		if t, ok := s.S.FirstPanic(); ok {
